@@ -12,6 +12,7 @@ Property prop_C01(const std::string& variant) {
         GenOpts o;
         o.id_schemes = ids_for(need_config(c.cfg));
         o.big_pool = true;
+        o.abstract_flags = true; // dispatch does not depend on the flag
         c.spec = gen_spec(ch, o, size);
         return c;
     };
@@ -182,6 +183,9 @@ Property prop_C04(const std::string& variant) {
         o.id_schemes = ids_for(need_config(c.cfg));
         o.lattice_bias = true;
         o.vp_anywhere = true;
+        // classes flagged abstract keep their cells: an object has such a
+        // dynamic class while its constructor or destructor runs
+        o.abstract_flags = true;
         o.max_methods = 8;
         o.many_methods = true;
         o.max_defs = 6;
